@@ -107,6 +107,11 @@ pub fn issue(rb: &mut RunBuilder, r: &mut Rng, o: IssueOpts) -> TokenDesc {
             if let Some(a) = &assertion {
                 rb.push(Op::BuilderOp { b, op: BOp::SetAssertion(a.clone()) });
             }
+            if o.layer == Layer::Generic && crate::prng::str_hash(&o.message) % 4 == 0 {
+                // the payload preview called directly before the build (decided by the message, so that the
+                // random stream of every other choice stays as it was)
+                rb.push(Op::BuilderOp { b, op: BOp::PeekPayload });
+            }
             rb.push(Op::Build { b, key: o.key, out, entropy_seed: r.next(), entropy_fail: vec![], observe: false, now_ns: Ns(SENTINEL_NOW) });
             TokenDesc { msg: out, proto: o.proto, layer: o.layer, key: o.key, footer: o.footer, assertion, issued_at: o.now, builder: Some(b) }
         }
